@@ -341,5 +341,44 @@ class _Re:
             return symre.split(pattern, string, maxsplit, flags)
         return _re.split(pattern, string, maxsplit, flags)
 
+    def fullmatch(self, pattern, string, flags=0):
+        if self._sym(string):
+            from . import symre
+            return symre.match("(?:" + pattern + ")$", string, flags)
+        return _re.fullmatch(pattern, string, flags)
+
+    def compile(self, pattern, flags=0):
+        return _Compiled(self, pattern, flags)
+
+
+class _Compiled:
+    """re.compile(p): the same functions with the pattern bound (precompiled patterns are a common refactoring)"""
+
+    def __init__(self, shim, pattern, flags):
+        self._shim, self.pattern, self.flags = shim, pattern, flags
+        self._real = _re.compile(pattern, flags)
+
+    def match(self, string, *a):
+        return self._shim.match(self.pattern, string, self.flags) if _Re._sym(string) else self._real.match(string, *a)
+
+    def search(self, string, *a):
+        return self._shim.search(self.pattern, string, self.flags) if _Re._sym(string) else self._real.search(string, *a)
+
+    def fullmatch(self, string, *a):
+        return self._shim.fullmatch(self.pattern, string, self.flags) if _Re._sym(string) else self._real.fullmatch(string, *a)
+
+    def split(self, string, maxsplit=0):
+        return self._shim.split(self.pattern, string, maxsplit, self.flags) if _Re._sym(string) else self._real.split(string, maxsplit)
+
+    def __getattr__(self, name):
+        attr = getattr(self._real, name)
+        if callable(attr):
+            def guarded(*a, **k):
+                if any(_Re._sym(x) for x in a):
+                    raise Unsupported(f"compiled pattern .{name} on a structured string")
+                return attr(*a, **k)
+            return guarded
+        return attr
+
 
 re = _Re()
